@@ -3,8 +3,9 @@
   every subgraph).  The federation planner itself is not modelled: that the real engine's answer equals the reference
   answer is validated per generated case by the harness (translation validation); what is proved here is that the
   reference semantics is a well-formed GraphQL execution: a non-null position never holds null, a failed non-null
-  field nulls its parent object, a response object's keys are exactly the collected response keys without duplicates,
-  and list results keep their length and order.
+  field nulls its parent object, the collected response keys of a selection set have no duplicates; that a response
+  object's keys are exactly the collected keys and that list results keep their length and order is proved in Props.C20
+  (execSels_keys, complete_list_shape).
 -/
 import GqlVerif.Gql.Exec
 namespace GqlVerif.Props.C01
